@@ -600,7 +600,24 @@ def job_grammar(col: Collector, seed: int, tier: str, shard: int, nshards: int, 
             col.exhaustive_parts.append("payload grammar: JSON objects with <=2 members (4 keys) whose values are leaves / [] / {} / [leaf] / {k: leaf} over a 25-leaf alphabet, through the four constructors")
 
 
-JOBS = {"hyp": job_hyp, "grammar": job_grammar}
+def job_transports_enum(col: Collector, seed: int, tier: str, backend: str = "pydantic") -> None:
+    """the transports' serialisers with a fixed list of awkward texts in every position (payload value, payload member
+    name, method name, string id, error message): line separators of every kind, controls, quotes, astral characters"""
+    texts = ["a\u2028b", "\u2029", "x\u0085y", "line\nfeed\r\n", "tab\tquote\"back\\slash", "\x00\x1f\x7f", "\U0001F600\U0010FFFF", "\ufeffbom", " edge ", "\u00e9\u65e5", "\x0b\x0c\x1c\x1d\x1e", ""]
+    for em in ("stdio-writer", "http-post", "sse-post"):
+        for k, t in enumerate(texts):
+            for dbg in (False, True):
+                case = {"emitter": em, "id": ("i" + t) if t else 7, "payload": {"t": t, ("k" + t): [t, None], "n": 2**63}, "method": ("m/" + t) if k % 2 else "tools/call", "code": -32000 - k, "message": t}
+                if dbg:
+                    case["debug_log"] = True
+                if em == "stdio-writer" and k % 4 == 1:
+                    case["pad"] = 70000
+                col.record(case, check(case))
+    col.extra["backend_" + backend] = 1
+    col.exhaustive_parts.append(f"{len(texts)} awkward texts in every textual position x 3 transport serialisers x logging default / DEBUG")
+
+
+JOBS = {"hyp": job_hyp, "grammar": job_grammar, "transports_enum": job_transports_enum}
 
 FB = {"MCP_FORCE_FALLBACK": "1"}
 
@@ -616,6 +633,7 @@ def jobs(tier: str):
             + [("hyp", {"shard": 40, "n": 300, "group": "helpers", "backend": "fallback", "_env": FB})]
             + [("hyp", {"shard": 50, "n": 100, "group": "transports", "backend": "fallback", "_env": FB})]
             + [("grammar", {"shard": 0, "nshards": 3, "backend": "fallback", "_env": FB})]
+            + [("transports_enum", {}), ("transports_enum", {"backend": "fallback", "_env": FB})]
         )
     return (
         [("hyp", {"shard": s, "n": 8000, "group": "constructors"}) for s in range(3)]
@@ -626,6 +644,7 @@ def jobs(tier: str):
         + [("hyp", {"shard": 40, "n": 4000, "group": "helpers", "backend": "fallback", "_env": FB})]
         + [("hyp", {"shard": 50, "n": 2000, "group": "transports", "backend": "fallback", "_env": FB})]
         + [("grammar", {"shard": 0, "nshards": 6, "backend": "fallback", "_env": FB})]
+        + [("transports_enum", {}), ("transports_enum", {"backend": "fallback", "_env": FB})]
     )
 
 
